@@ -45,6 +45,7 @@ EXPLANATION = (
     "so an upstream reset mid-body cannot be relayed as a truncated 20. "
     "(Z7) = C17.Y5: each location is served with its own timeout. "
     "(Z8) = C13.E2. (Z9) = C15.X2: the front end's request timer is off while the handler runs. (Z10) GeminiResponse.charset matches the parameter name case-insensitively."
+    ' (Z11) the charset parameter is found at any position (GeminiResponse.charset and the client protocol). (Z12) = C06.R10: no method of GeminiResponse rewrites status / meta / body. (Z13) = C13.E8: a location without a timeout key still gets a numeric timeout.'
 )
 
 PROXY = "server.proxy:ProxyHandler"
